@@ -316,6 +316,15 @@ def Atom.npBoolVsBigInt : Atom → Atom → Bool
   | .npBool _, .int _ n => decide (n < -(2 ^ 63)) || decide (n ≥ 2 ^ 63)
   | _, _ => false
 
+/-- An ndarray of dtype code `d` (0 bool, 1 int32, 2 int64, 3 float32, 4 float64)
+against a Python int that the conversion to the array's kind overflows on. -/
+def Atom.ndVsBigInt (d : Nat) : Atom → Bool
+  | .int _ n =>
+    if d == 3 || d == 4 then (match intToFloat n with | .error _ => true | .ok _ => false)
+    else if d == 0 then decide (n < -(2 ^ 63)) || decide (n ≥ 2 ^ 63)
+    else false
+  | _ => false
+
 /-- `==` on atoms.  Pure Python numbers compare exactly (int against float
 too, as CPython does); as soon as a numpy scalar is involved numpy's `__eq__`
 decides: integers among themselves exactly, everything else after conversion
@@ -323,7 +332,7 @@ to double. -/
 def Atom.pyEq (a b : Atom) : Tri :=
   match a, b with
   | .npArr _, _ | _, .npArr _ => .raises .valueError
-  | .ndarray _ _, _ | _, .ndarray _ _ => .raises .valueError
+  | .ndarray d _, b | b, .ndarray d _ => if Atom.ndVsBigInt d b then .raises .overflowError else .raises .valueError
   | .badEq _, _ | _, .badEq _ => .raises .valueError
   | _, _ =>
     if a.isNp || b.isNp then
